@@ -102,6 +102,8 @@ def getattr_(ex, obj, name, node=None):
             return ex.models.dyn_attr(obj, name)
         if isinstance(k, K.Tup):
             raise RaiseEx(ExcVal('AttributeError', origin=f'tuple.{name}'))
+        if isinstance(k, K.U):
+            return ex.models.u_method(obj, name)
     if isinstance(obj, ClassVal):
         return class_getattr(ex, obj, name, node)
     if isinstance(obj, ModuleVal):
